@@ -61,7 +61,10 @@ def step (a : Lww) : Op → Lww
 
 def call (a : Lww) (t : Tgt) (x : Nat) : Lww × Res :=
   match a.beh t with
-  | .orig => (a, .o)
+  | .orig =>
+    match t with                -- C07: a method without a mock of its own panics "not implements" while its variable is mocked
+    | .i2 j => if a.beh (.i2 (!j)) = .orig then (a, .o) else (a, .n)
+    | _ => (a, .o)
   | .cb k => (a, .k k)
   | .stub w => let (w', r) := w.invoke x; ({ a with beh := upd a.beh t (.stub w') }, r)
 
